@@ -234,6 +234,11 @@ func c19Schedules() *sup.Space {
 			w.SetCase(cs)
 			human := fmt.Sprintf("goroutines %v sharing %s, schedule %v", names, sh, x.Choices())
 			w.Stats().Transitions += int64(x.Steps)
+			if only == nil && w.Ctx().Expired() {
+				// the internal deadline ends the exploration of this tuple too (reported as not exhaustive)
+				w.Stats().Exhaustive = false
+				return false
+			}
 			if c11ExecProblems(w, x, human, "schedules") {
 				return true
 			}
